@@ -907,3 +907,57 @@ func (c *Ctx) rulesR5misc(only string, a *coreAnchors) {
 		}
 	}
 }
+
+// rulesR5settle: C06.settle
+func (c *Ctx) rulesR5settle() {
+	c.rule("C06.settle", "Subscriptions.ProcessWhen decides that a When/WhenNot binding is complete (Matched against Total) only after every state delta of the transition has been applied to it: the comparison is not inside the loop over the activated/deactivated states. Matched goes up and down; checked after each single state, When(A,B) closes on a transition that activates A and deactivates B although the two were never active together")
+	f := c.fnOpt(pm + ":Subscriptions.ProcessWhen")
+	fM := c.field(pm, "WhenBinding", "Matched")
+	fT := c.field(pm, "WhenBinding", "Total")
+	if f == nil || fM == nil || fT == nil {
+		c.undecided("C06.settle: ProcessWhen / WhenBinding.Matched / Total not found")
+		return
+	}
+	fromParams := func(v ssa.Value) bool {
+		return derives(v, func(x ssa.Value) bool {
+			p, ok := x.(*ssa.Parameter)
+			if !ok {
+				return false
+			}
+			_, isSl := p.Type().Underlying().(*types.Slice)
+			return isSl
+		})
+	}
+	loops := rangeLoops(f)
+	n := 0
+	for _, b := range f.Blocks {
+		for _, ins := range b.Instrs {
+			bo, ok := ins.(*ssa.BinOp)
+			if !ok {
+				continue
+			}
+			switch bo.Op {
+			case token.LSS, token.GEQ, token.GTR, token.LEQ, token.EQL, token.NEQ:
+			default:
+				continue
+			}
+			m1 := loadOfField(bo.X) == fM || loadOfField(bo.Y) == fM
+			t1 := loadOfField(bo.X) == fT || loadOfField(bo.Y) == fT
+			if !m1 || !t1 {
+				continue
+			}
+			n++
+			inside := ""
+			for _, l := range loops {
+				if l.body[b] && l.x != nil && fromParams(l.x) {
+					inside = render(l.x)
+				}
+			}
+			c.check(inside == "", "C06.settle", fmt.Sprintf("ProcessWhen: completion test#%d runs after all deltas were applied", n), bo.Pos(),
+				"Matched is compared with Total inside the loop over "+inside+" (the transition's activated/deactivated states): the binding is judged after a part of the transition only")
+		}
+	}
+	if n < 1 {
+		c.undecided("C06.settle: no Matched/Total comparison found in ProcessWhen")
+	}
+}
